@@ -88,8 +88,8 @@ Section Modes.
     end.
 
   (* _flush: register(client, WRITE); while has_buffer: ev = select(); if not ev: continue; flush()
-     except BrokenPipeError: pass   finally: unregister(client) *)
-  Definition is_broken_pipe (e : exn) : bool := match e with OSError 32 => true | _ => false end.
+     except OSError: pass   (since faabfc0; before: BrokenPipeError only)   finally: unregister(client) *)
+  Definition is_broken_pipe (e : exn) : bool := match e with OSError _ => true | _ => false end.
 
   Fixpoint t_flush_loop (fl : list bool) (w : W) (io : IO) : W * result unit :=
     if w_has_buffer w then
